@@ -274,6 +274,28 @@ def _simplify(e: ast.AST) -> ast.AST:
     return _Simplify().visit(e)
 
 
+def _is_const_text(t: str) -> bool:
+    try:
+        return isinstance(ast.parse(t, mode="eval").body, ast.Constant)
+    except SyntaxError:
+        return False
+
+
+class _ReadBack(ast.NodeTransformer):
+    """container[key] -> the value stored under that key earlier on the same path"""
+
+    def __init__(self, items: Dict[Tuple[str, str], ast.expr]):
+        self.items = items
+
+    def visit_Subscript(self, n: ast.Subscript):
+        self.generic_visit(n)
+        if isinstance(n.ctx, ast.Load):
+            v = self.items.get((txt(n.value), txt(n.slice)))
+            if v is not None:
+                return copy.deepcopy(v)
+        return n
+
+
 def _first_ifexp(e: ast.AST) -> Optional[ast.IfExp]:
     """Outermost conditional expression that is evaluated unconditionally when `e` is (not under a comprehension, lambda or the
     right side of a short-circuit)."""
@@ -299,9 +321,10 @@ MUTATORS = {"append", "add", "extend", "update", "insert", "remove", "pop", "cle
 # the executor
 # ---------------------------------------------------------------------------------------------------------------------
 class _State:
-    __slots__ = ("store", "conds", "effects", "events", "known", "loops", "guards")
+    __slots__ = ("store", "conds", "effects", "events", "known", "loops", "guards", "items")
 
-    def __init__(self, store=None, conds=None, effects=None, events=None, known=None, loops=(), guards=()):
+    def __init__(self, store=None, conds=None, effects=None, events=None, known=None, loops=(), guards=(), items=None):
+        self.items: Dict[Tuple[str, str], ast.expr] = items if items is not None else {}  # container[key] = value stored on this path
         self.store: Dict[str, ast.expr] = store if store is not None else {}
         self.conds: List[Tuple[str, bool, ast.AST]] = conds if conds is not None else []
         self.effects: List[Effect] = effects if effects is not None else []
@@ -311,7 +334,7 @@ class _State:
         self.guards: Tuple[Tuple[str, bool, ast.AST], ...] = guards
 
     def fork(self) -> "_State":
-        return _State(dict(self.store), list(self.conds), list(self.effects), list(self.events), dict(self.known), self.loops, self.guards)
+        return _State(dict(self.store), list(self.conds), list(self.effects), list(self.events), dict(self.known), self.loops, self.guards, dict(self.items))
 
 
 class Executor:
@@ -329,6 +352,8 @@ class Executor:
         r = subst(e, st.store)
         if self.rewrite is not None:
             r = self.rewrite(r)
+        if st.items:
+            r = _ReadBack(st.items).visit(r)
         return r
 
     def decide(self, test: ast.expr, st: _State):
@@ -416,6 +441,8 @@ class Executor:
             recv = self.sub(target.value, st)
             key = self.sub(target.slice, st)
             self._effect(Effect("setitem", txt(recv), "[]=", [key, value], target, None), st)
+            if not st.loops:
+                st.items[(txt(recv), txt(key))] = value  # a later `recv[key]` on this path reads this value back
         elif isinstance(target, ast.Attribute):
             recv = self.sub(target.value, st)
             self._effect(Effect("setattr", txt(recv), target.attr, [value], target, None), st)
@@ -423,6 +450,11 @@ class Executor:
     def _effect(self, ef: Effect, st: _State) -> None:
         ef.loops = st.loops
         ef.guards = st.guards
+        if st.items and (ef.kind != "call" or ef.method in MUTATORS):
+            # a store under another key leaves the remembered items alone; any other mutation of the container forgets them
+            only = txt(ef.args[0]) if ef.kind == "setitem" and ef.args and isinstance(ef.args[0], ast.Constant) else None
+            for k in [k for k in st.items if k[0] == ef.recv and (only is None or k[1] == only or not _is_const_text(k[1]))]:
+                del st.items[k]
         st.effects.append(ef)
         st.events.append(("effect", len(st.effects) - 1))
         if ef.kind != "call" or ef.method in MUTATORS:
